@@ -330,6 +330,7 @@ def _tomtom(Q, T, Q_lens, T_lens, Q_norm, T_norm, rr_inv, rr_counts, n_nearest,
 	_results = numpy.empty((n, len(T_lens), 5), dtype='float64')
 	results = numpy.empty((len(Q_lens), n_out_targets, n_outputs), 
 		dtype='float64') 
+	overflow = numpy.zeros(len(Q_lens), dtype='uint8')
 
 	for i in prange(len(Q_lens)):
 		nq = Q_lens[i]
@@ -340,8 +341,8 @@ def _tomtom(Q, T, Q_lens, T_lens, Q_norm, T_norm, rr_inv, rr_counts, n_nearest,
 			T_norm, rr_counts, Q_offsets[i], nq, n_score_bins)
 
 		if offset > n_cache:
-			raise ValueError("Offset is larger than `n_cache`. Please " +
-				"increase `n_cache`.")
+			overflow[i] = 1
+			continue
 
 		_p_value_backgrounds(_f[pid], _A[pid], _B[pid], _A_csum[pid], nq, 
 			n_score_bins, T_max, offset)
@@ -361,6 +362,9 @@ def _tomtom(Q, T, Q_lens, T_lens, Q_norm, T_norm, rr_inv, rr_counts, n_nearest,
 			results[i, :, :5] = _results[pid, idxs]
 			results[i, :, 5] = idxs
 
+	if overflow.sum() > 0:
+		raise ValueError("Offset is larger than `n_cache`. Please " +
+			"increase `n_cache`.")
 
 	return results            
   
